@@ -426,7 +426,13 @@ func (pp *Prepass) instrWritesIn(fn *ssa.Function, ins ssa.Instruction, ws KeySe
 		for _, s := range x.States {
 			if s.Dir == types.SendOnly {
 				ws["G:sent"] = true
+			} else {
+				ws["G:recvd"] = true
 			}
+		}
+	case *ssa.UnOp:
+		if x.Op == token.ARROW {
+			ws["G:recvd"] = true
 		}
 	case *ssa.Slice:
 		if pt, ok := x.X.Type().Underlying().(*types.Pointer); ok {
